@@ -220,14 +220,31 @@ func refCumulative(bounds []float64, counts []uint64) string {
 
 // refNative: Prometheus native-histogram bucket i covers (base^(i-1), base^i], the OTel
 // exponential bucket i covers (base^i, base^(i+1)]: Prometheus index = OTel index + 1.
-// Empty buckets carry no information and are left out.
+// Prometheus native histograms only have schemas up to 8: a data point at a finer OTel
+// scale s can only be exposed at schema 8, where OTel bucket i has become bucket
+// floor(i / 2^(s-8)) and the counts of merged buckets add up. Empty buckets carry no
+// information and are left out.
 func refNative(scale int32, zeroThreshold float64, zeroCount uint64, posOff int32, pos []uint64, negOff int32, neg []uint64) string {
+	shift := uint(0)
+	if scale > 8 {
+		shift = uint(scale - 8)
+		scale = 8
+	}
 	side := func(off int32, cs []uint64) string {
-		var b strings.Builder
+		merged := map[int]uint64{}
 		for i, c := range cs {
 			if c != 0 {
-				fmt.Fprintf(&b, "%d:%d ", int(off)+i+1, c)
+				merged[((int(off)+i)>>shift)+1] += c // >> on a negative int rounds towards -Inf
 			}
+		}
+		idx := make([]int, 0, len(merged))
+		for i := range merged {
+			idx = append(idx, i)
+		}
+		sort.Ints(idx)
+		var b strings.Builder
+		for _, i := range idx {
+			fmt.Fprintf(&b, "%d:%d ", i, merged[i])
 		}
 		return b.String()
 	}
